@@ -88,11 +88,15 @@ func gen(r *prng.R, f proto.Flags, emit func(proto.Case)) {
 	genVacuum(r, f, emit)
 	genOverlap(emit)
 	genObserve(r, f, emit)
+	genPolicy(emit)
 }
 
 func exec(c proto.Case, o *proto.Out) []string {
 	if len(c.Ops) > 0 && (strings.HasPrefix(c.Ops[0], "script") || strings.HasPrefix(c.Ops[0], "run")) {
 		return execSharing(c, o)
+	}
+	if len(c.Ops) > 0 && strings.HasPrefix(c.Ops[0], "policy-seq") {
+		return execPolicy(c, o)
 	}
 	if len(c.Ops) > 0 && strings.HasPrefix(c.Ops[0], "ocfg") {
 		return execObserve(c, o)
